@@ -55,3 +55,7 @@ Definition overlap_kinds (o : oracle) (h w : nat) (s : grid cell) : bool * bool 
   (existsb (fun '(ni, nw) => 2 <=? ni) l,
    existsb (fun '(ni, nw) => (1 <=? ni) && (1 <=? nw)) l,
    existsb (fun '(ni, nw) => 2 <=? nw) l).
+
+(* the domain of the theorems: images share cells with nothing (wide characters may hide one another) *)
+Definition no_image_overlap (o : oracle) (h w : nat) (s : grid cell) : bool :=
+  let '(ii, wi, _) := overlap_kinds o h w s in negb ii && negb wi.
